@@ -34,14 +34,16 @@ type corpusFile struct {
 }
 
 type H struct {
-	o       *vh.Opts
-	sum     *vh.Summary
-	cw      *vh.CaseWriter
-	ran     map[string]int
-	toCoq   int
-	verbose bool
-	trace   string // when set: the last 16 cases are written here before each run (crash localisation)
-	recent  []Case
+	o        *vh.Opts
+	sum      *vh.Summary
+	cw       *vh.CaseWriter
+	ran      map[string]int
+	toCoq    int
+	verbose  bool
+	trace    string // when set: the last 16 cases are written here before each run (crash localisation)
+	recent   []Case
+	traceF   *os.File
+	traceLen int
 }
 
 func cloneDecls(ds []*Decl) []*Decl {
@@ -55,8 +57,9 @@ func cloneDecls(ds []*Decl) []*Decl {
 }
 
 // effective declarations: what the format makes of them
-//   edi: a segment declaration's name IS the segment name
-//   csv2/fixedlength2: no target declared => the first top-level declaration is the target
+//
+//	edi: a segment declaration's name IS the segment name
+//	csv2/fixedlength2: no target declared => the first top-level declaration is the target
 func effective(driver string, ds []*Decl) []*Decl {
 	ds = cloneDecls(ds)
 	switch driver {
@@ -109,11 +112,21 @@ func (h *H) runCase(c *Case, toCoq, forceOracle bool) *outcome {
 	out := &outcome{}
 	if h.trace != "" {
 		h.recent = append(h.recent, *c)
-		if len(h.recent) > 16 {
-			h.recent = h.recent[len(h.recent)-16:]
+		if len(h.recent) > 8 {
+			h.recent = h.recent[len(h.recent)-8:]
 		}
-		b, _ := json.Marshal(h.recent)
-		_ = os.WriteFile(h.trace, b, 0o644)
+		if h.traceF == nil {
+			h.traceF, _ = os.Create(h.trace)
+		}
+		if h.traceF != nil {
+			// one descriptor, rewritten in place; padded so that a shorter record leaves no garbage
+			b, _ := json.Marshal(h.recent)
+			for len(b) < h.traceLen {
+				b = append(b, ' ')
+			}
+			h.traceLen = len(b)
+			_, _ = h.traceF.WriteAt(b, 0)
+		}
 	}
 	h.ran[c.Driver]++
 	rawDecls := c.Decls
@@ -438,8 +451,17 @@ func main() {
 							continue
 						}
 						for n2 := 1; n2 <= 2; n2++ {
-							for tgt := -1; tgt <= 1; tgt++ {
-								ds := build(f, []attr{{occ: o1, group: g == 1, name: n1}, {occ: o2, name: n2}}, tgt)
+							for tgt := -1; tgt <= 3; tgt++ {
+								// tgt 2, 3: the two declarations carry the SAME name (target = first / second)
+								t := tgt
+								if tgt >= 2 {
+									t = tgt - 2
+								}
+								ds := build(f, []attr{{occ: o1, group: g == 1, name: n1}, {occ: o2, name: n2}}, t)
+								if tgt >= 2 {
+									walk(ds, func(d *Decl) { d.Name = 100 })
+									h.sum.Hist("duplicate-names")
+								}
 								allWords(alphabet(2), wl, func(us []Unit) {
 									w := append([]Unit(nil), us...)
 									enumRun++
@@ -474,10 +496,14 @@ func main() {
 			attrs[k] = attr{occ: r.Pick(len(occurrences)), group: r.Chance(0.5), name: r.Between(1, nn)}
 		}
 		ds := build(f, attrs, r.Between(-1, n-1))
+		dup := r.Chance(0.4) && dupNames(r, ds, 0.6, false)
+		if dup {
+			h.sum.Hist("duplicate-names")
+		}
 		w := randWord(r, alphabet(nn), 6)
 		enumRun++
 		h.generated(&Case{Driver: "direct", Decls: ds, Units: w, Release: r.Pick(3)}, coqEvery(60))
-		if i%40 == 0 {
+		if i%40 == 0 || (dup && i%8 == 0) {
 			viaFormat(ds, w, coqEvery(2))
 		}
 	}
@@ -490,6 +516,9 @@ func main() {
 		flat := r.Chance(0.7)
 		ds := genBig(r, flat)
 		nn := maxName(ds)
+		if r.Chance(0.45) && dupNames(r, ds, 0.5, !flat) {
+			h.sum.Hist("duplicate-names")
+		}
 		us := derive(r, ds, nn)
 		spoiled := false
 		if r.Chance(0.08) {
